@@ -6,9 +6,34 @@ import (
 	"os"
 )
 
-// tryReplay turns a solver model into a Go test against the real code (generic builder for a
-// stated class of obligations; see replaygen.go). Returns true when the failure was reproduced.
+// tryReplay turns a solver model into a Go test against the real code (builder in replaygen.go). Returns true
+// when the failure was reproduced: the real function panics on the model's input (or, for allocation and
+// precondition obligations, allocates beyond the bound).
 func tryReplay(p *Program, r *FuncResult, o *Obligation, rf *ReplayFile) bool {
+	if !replayKinds[o.Kind] {
+		rf.Verdict = "not-replayed: obligations of kind " + o.Kind + " state a functional property; only the solver's model is recorded"
+		return false
+	}
+	src, pkgDir, why := buildReplay(p, r, o)
+	if src == "" {
+		rf.Verdict = "not-replayed: " + why
+		return false
+	}
+	rf.Test, rf.TestPkg = src, pkgDir
+	out, ran, panicked := runReplayTest(pkgDir, src)
+	rf.TestOutput = out
+	switch {
+	case !ran:
+		rf.Verdict = "not-replayed: the generated test did not run (see test_output)"
+		return false
+	case panicked:
+		rf.Verdict = "replayed: the real function panics on the solver's input"
+		return true
+	case (o.Kind == "alloc" || o.Kind == "pre" || o.Kind == "makelen") && replayAlloc(out) >= replayAllocBound:
+		rf.Verdict = fmt.Sprintf("replayed: the real function allocates %d bytes on the solver's input", replayAlloc(out))
+		return true
+	}
+	rf.Verdict = "not-reproduced: the real function returned normally on the solver's input (the model may rely on an over-approximated callee or library)"
 	return false
 }
 
@@ -31,9 +56,9 @@ func cmdReplay(args []string) int {
 		fmt.Println("  no generated test in this replay file (no-failing-input-found): the failed obligation and solver output are the evidence")
 		return 1
 	}
-	out, ok := runReplayTest(rf.TestPkg, rf.Test)
+	out, _, ok := runReplayTest(rf.TestPkg, rf.Test)
 	fmt.Println(out)
-	if ok {
+	if ok || replayAlloc(out) >= replayAllocBound {
 		fmt.Println("REPLAY-CONFIRMED")
 		return 1
 	}
@@ -41,4 +66,3 @@ func cmdReplay(args []string) int {
 	return 0
 }
 
-func runReplayTest(pkg, src string) (string, bool) { return "", false }
